@@ -86,7 +86,14 @@ def r15_4(ctx):
              ("two nodes on segment 0, one on segment 2", [0, 0, 2], [Fr(1, 3), Fr(2, 3), Fr(1, 2)],
               [(0, (Fr(1, 3), Fr(2, 3))), (4, (Fr(1, 2),))]),
              ("unsorted input, three nodes on segment 1, one on 2", [2, 1, 1, 1], [Fr(1, 2), Fr(3, 4), Fr(1, 4), Fr(1, 2)],
-              [(1, (Fr(1, 4), Fr(1, 2), Fr(3, 4))), (5, (Fr(1, 2),))])]
+              [(1, (Fr(1, 4), Fr(1, 2), Fr(3, 4))), (5, (Fr(1, 2),))]),
+             # parameters at the very ends of a segment (a crossing through a vertex left by an earlier split) insert
+             # nothing and therefore must not shift the later indices
+             ("an end parameter on segment 0, an interior one on segment 1", [0, 1], [Fr(0), Fr(1, 2)], [(1, (Fr(1, 2),))]),
+             ("end and interior parameters on segment 0, one on segment 2", [0, 0, 2], [Fr(1), Fr(1, 2), Fr(1, 4)],
+              [(0, (Fr(1, 2),)), (3, (Fr(1, 4),))]),
+             ("only end parameters on segments 0 and 1, an interior one on segment 2", [0, 1, 2], [Fr(1), Fr(0), Fr(2, 3)],
+              [(2, (Fr(2, 3),))])]
     for label, idx, nds, want in cases:
         try:
             got = split_calls(ctx, idx, nds)
